@@ -541,12 +541,100 @@ def flip_variants(tls, D, S):
     return [("rsa+alpn", plain), ("ec256", ec), ("certificate-request", client_cert), ("resumed", resumed)]
 
 
+def apply_alteration(tls, alt, m):
+    """one in-flight alteration of handshake message `m`:
+      ("xor", off, mask)        flip bits of one byte (offsets 0..3 are the message header)
+      ("set", off, value)       overwrite one byte (value "len-1" = the byte minus one)
+      ("truncate-mac", n)       Finished with verify_data cut to n bytes, header consistent
+      ("truncate-binder", n)    ClientHello whose PSK binder is cut to n bytes, every length consistent"""
+    kind = alt[0]
+    b = bytearray(m)
+    if kind == "xor":
+        b[alt[1] % len(b)] ^= alt[2]
+        return bytes(b)
+    if kind == "set":
+        off = alt[1] % len(b)
+        b[off] = (b[off] - 1) % 256 if alt[2] == "len-1" else alt[2]
+        return bytes(b)
+    if kind == "truncate-mac":
+        body = m[4:4 + alt[1]]
+        return bytes([m[0]]) + len(body).to_bytes(3, "big") + body
+    if kind == "truncate-binder":
+        from aioquic.buffer import Buffer
+        hello = tls.pull_client_hello(Buffer(data=m))
+        hello.pre_shared_key.binders[0] = hello.pre_shared_key.binders[0][:alt[1]]
+        out = Buffer(capacity=len(m) + 16)
+        tls.push_client_hello(out, hello)
+        return out.data
+    raise ValueError(alt)
+
+
+def flip_plan(tls, ref, r, thorough, vname):
+    """alterations for one handshake variant: [(direction, message index, alteration)]"""
+    FIN, CH = int(tls.HandshakeType.FINISHED), int(tls.HandshakeType.CLIENT_HELLO)
+    msgs = [(d, i, m) for d in ("c2s", "s2c") for i, m in enumerate(ref[d])
+            if m[0] != tls.HandshakeType.NEW_SESSION_TICKET]     # post-handshake, not one of the property's messages
+    plan = []
+    bits = [1 << k for k in range(8)]
+    for d, i, m in msgs:
+        # ---- the 4-byte message header (type, 24-bit length): every single-bit flip, all bits, and
+        # overwritten values, so the declared length is both raised and lowered
+        for off in range(4):
+            plan += [(d, i, ("xor", off, k)) for k in bits + [0xFF]]
+            plan += [(d, i, ("set", off, v)) for v in (0x00, 0x10, "len-1")]
+        # ---- truncated authentication values with a consistent header: every shorter length
+        if m[0] == FIN:
+            plan += [(d, i, ("truncate-mac", k)) for k in range(len(m) - 4)]
+        if m[0] == CH and vname == "resumed":
+            plan += [(d, i, ("truncate-binder", k)) for k in range(48)]
+    # ---- body bytes
+    body = [(d, i, off) for d, i, m in msgs for off in range(4, len(m))]
+    masks = [0x01, 0x80, 0xFF]
+    if thorough:
+        cand = [(d, i, ("xor", off, k)) for d, i, off in body for k in masks]
+        if len(cand) > 20000:
+            cand = [cand[j] for j in sorted(r.sample(range(len(cand)), 20000))]
+        plan += cand
+    else:
+        plan += [(d, i, ("xor", off, r.choice(masks + bits))) for d, i, off in (r.choice(body) for _ in range(300))]
+        for d, i, m in msgs:       # first and last body byte of every message
+            if len(m) > 4:
+                plan += [(d, i, ("xor", 4, 0xFF)), (d, i, ("xor", len(m) - 1, 0x80))]
+    return plan
+
+
+def run_alteration(tls, D, mk, d, i, alt):
+    """one handshake with message (d, i) altered in flight; returns (receiver completed, message as sent, as delivered)"""
+    POST = {tls.State.CLIENT_POST_HANDSHAKE, tls.State.SERVER_POST_HANDSHAKE}
+    c, s = mk()
+    seen = {}
+
+    def tamper(direction, idx, m):
+        if direction == d and idx == i:
+            try:
+                m2 = apply_alteration(tls, alt, m)
+            except Exception:      # the alteration does not apply to this run's message (e.g. no PSK)
+                m2 = m
+            seen["sent"], seen["delivered"] = m, m2
+            return m2
+        return m
+
+    exchange(D, tls, c, s, tamper)
+    receiver = s if d == "c2s" else c
+    altered = "sent" in seen and seen["sent"] != seen["delivered"]
+    return (receiver.state in POST) and altered, seen.get("sent"), seen.get("delivered")
+
+
 def byte_flips(ctx, r, thorough):
+    """man in the middle at message level: every handshake message of four handshake shapes, in both
+    directions, altered in flight — bit flips and overwritten bytes everywhere INCLUDING the 4-byte
+    header (values raised and lowered), and truncated Finished verify_data / PSK binders with every
+    length field consistent.  Oracle (property text): the endpoint that received an altered message
+    never completes."""
     from aioquic import tls
     from harness import tlsdrive as D, tlsscen as S
     D.tap_extract()
     POST = {tls.State.CLIENT_POST_HANDSHAKE, tls.State.SERVER_POST_HANDSHAKE}
-    masks = [0x01, 0x80, 0xFF]
     total = blocked = 0
     for vname, mk in flip_variants(tls, D, S):
         c, s = mk()
@@ -554,46 +642,17 @@ def byte_flips(ctx, r, thorough):
         if c.state not in POST or s.state not in POST:
             ctx.witness(f"byte-flip baseline ({vname}) did not complete: {c.state} {s.state}", {}, {"oracle": "baseline"})
             continue
-        targets = []
-        for d in ("c2s", "s2c"):
-            for i, m in enumerate(ref[d]):
-                if m[0] == tls.HandshakeType.NEW_SESSION_TICKET:
-                    continue                     # post-handshake, not one of the property's messages
-                targets += [(d, i, off) for off in range(len(m))]
-        if thorough:
-            plan = [(t, mk_) for t in targets for mk_ in masks]
-            if len(plan) > 5000:
-                plan = [plan[j] for j in sorted(r.sample(range(len(plan)), 5000))]
-        else:
-            plan = [(r.choice(targets), r.choice(masks)) for _ in range(110)]
-            # make sure every message is hit at its first and last byte
-            for d in ("c2s", "s2c"):
-                for i, m in enumerate(ref[d]):
-                    if m[0] != tls.HandshakeType.NEW_SESSION_TICKET:
-                        plan += [((d, i, 0), 0x01), ((d, i, len(m) - 1), 0x80), ((d, i, 4 if len(m) > 4 else 0), 0xFF)]
-        for (d, i, off), mask in plan:
-            c, s = mk()
-
-            def tamper(direction, idx, m, d=d, i=i, off=off, mask=mask):
-                if direction == d and idx == i:
-                    b = bytearray(m)
-                    b[off % len(b)] ^= mask      # signature lengths vary from run to run
-                    return bytes(b)
-                return m
-
-            sent = exchange(D, tls, c, s, tamper)
-            receiver = s if d == "c2s" else c
+        for d, i, alt in flip_plan(tls, ref, r, thorough, vname):
+            done, sent, delivered = run_alteration(tls, D, mk, d, i, alt)
             total += 1
-            ctx.count(("flip", vname, d, i, off, mask), True)
-            if i >= len(sent[d]):
-                continue
-            if receiver.state in POST:
-                mt = sent[d][i][0]
-                ctx.witness(f"{vname}: byte {off} (mask 0x{mask:02x}) of handshake message type {mt} ({d}) was altered in "
-                            f"flight and the receiving endpoint still completed the handshake",
-                            {"kind": "flip", "variant": vname, "direction": d, "message_index": i, "offset": off, "mask": mask,
-                             "message": sent[d][i].hex()},
-                            {"oracle": "byte-flip-completes", "variant": vname, "type": int(mt)})
+            ctx.count(("flip", vname, d, i, alt), True)
+            if done:
+                mt = sent[0]
+                ctx.witness(f"{vname}: handshake message type {mt} ({d}) was altered in flight ({alt}) and the receiving "
+                            f"endpoint still completed the handshake",
+                            {"kind": "flip", "variant": vname, "direction": d, "message_index": i, "alteration": list(alt),
+                             "message": sent.hex(), "delivered": delivered.hex()},
+                            {"oracle": "byte-flip-completes", "variant": vname, "type": int(mt), "alteration": alt[0]})
             else:
                 blocked += 1
     ctx.notes["byte_flips"] = {"cases": total, "blocked": blocked}
@@ -631,6 +690,7 @@ def main(tier):
         name_matrix(ctx, False)
         chain_matrix(ctx, False)
         tlsrogue.run(ctx, full=True, label="rogue-server-search")
+        byte_flips(ctx, sr, False)
     ctx.search = search
     if not ok:
         return ctx.finish()
@@ -712,19 +772,10 @@ def replay(path):
     elif kind == "flip":
         D.tap_extract()
         mk = dict(flip_variants(tls, D, S))[rep["variant"]]
-        c, s = mk()
-
-        def tamper(direction, idx, m):
-            if direction == rep["direction"] and idx == rep["message_index"]:
-                b = bytearray(m)
-                b[rep["offset"] % len(b)] ^= rep["mask"]
-                return bytes(b)
-            return m
-        exchange(D, tls, c, s, tamper)
-        receiver = s if rep["direction"] == "c2s" else c
-        done = receiver.state in (tls.State.CLIENT_POST_HANDSHAKE, tls.State.SERVER_POST_HANDSHAKE)
-        ws = [{"what": f"{rep['variant']}: flipped byte {rep['offset']} of message {rep['message_index']} "
-                       f"({rep['direction']}); the receiver still completed"}] if done else []
+        alt = tuple(rep["alteration"]) if "alteration" in rep else ("xor", rep["offset"], rep["mask"])
+        done, sent, delivered = run_alteration(tls, D, mk, rep["direction"], rep["message_index"], alt)
+        ws = [{"what": f"{rep['variant']}: message {rep['message_index']} ({rep['direction']}) altered by {alt}; "
+                       f"the receiver still completed"}] if done else []
     elif kind == "pair":
         rr = rep["rerun"]
         co, so = dict(rr["client_options"]), dict(rr["server_options"])
